@@ -2,6 +2,8 @@ import Clover.Proofs.UnmarshalRename
 import Clover.Proofs.KindInvariance
 import Clover.Model.GoVal
 import Clover.Proofs.Paths
+import Clover.Proofs.SetAllOrder
+import Clover.Proofs.DocFields
 /-! # C18 — Go values are normalised to canonical types deterministically
 
 `normalize` is the model of `internal.Normalize` on Go values described as `reflect` sees them
@@ -132,5 +134,62 @@ theorem go_kinds_normalise_to_the_same_number (n : Nat) (hn : n ≤ 2^53) :
     ∃ a b c, normalize (.int (n : Int)) = .ok a ∧ normalize (.uint n) = .ok b ∧
       normalize (.float (F64.ofNatMag n)) = .ok c ∧ SameNumber a b ∧ SameNumber a c ∧ SameNumber b c :=
   normalize_kinds_sameNumber n hn
+
+/-- **`SetAll` is deterministic although Go iterates its map argument in random order**
+    (`Document.SetAll`, hence `DB.Update(q, map)`): when no two names of the map are prefix-related as
+    dotted paths, assigning them in ANY order yields the same document — so the model, which applies
+    the pairs in list order, describes every order the runtime may pick.  No hypothesis on the
+    document or the values. -/
+theorem setAll_order_irrelevant {kvs kvs' : List (Bytes × Value)} (hp : kvs.Perm kvs')
+    (hu : kvs.Pairwise (fun x y => Unrelated (splitDots x.1) (splitDots y.1))) (d : Doc) :
+    Upd.apply (.setAll kvs) d = Upd.apply (.setAll kvs') d :=
+  updApply_setAll_perm hp hu d
+
+/-- … and the hypothesis is needed: for the prefix-related names `n` and `n.a` the two orders give
+    different documents (the outcome of `Update(q, {"n": nil, "n.a": true})` depends on Go's map
+    iteration order; the correspondence generators therefore keep the names of one update map
+    unrelated). -/
+theorem setAll_order_matters_for_related_names :
+    ∃ kvs kvs' : List (Bytes × Value), kvs.Perm kvs' ∧ Upd.apply (.setAll kvs) [] ≠ Upd.apply (.setAll kvs') [] := by
+  have h := setAll_order_matters
+  exact ⟨_, _, h.1, h.2.2.2⟩
+
+/-- well-formed documents (keys strictly increasing at every level) stay well formed under `Set` / `SetAll` -/
+theorem set_keeps_documents_wellformed (d : Doc) (a : Bytes) (v : Value) (hd : DocOK d) (hv : ValOK v) :
+    DocOK (d.set a v) := set_ok d a v hd hv
+
+/-! ### `Document.Fields` (`util.MapKeys` + sort): `Model/DocFields.lean`, validated against the real method on every run -/
+
+/-- `Fields(false)` lists exactly the top-level keys … -/
+theorem fields_top_exact (d : Doc) (k : Bytes) : k ∈ d.fields false ↔ (lookupKey k d).isSome :=
+  mem_fields_top d k
+
+/-- … `Fields(true)` lists exactly the dotted paths that `Has` finds and whose value is not a map
+    (an empty sub-map contributes nothing, as in the Go code), for documents whose keys contain no dot
+    (a key with a dot is listed verbatim but is not a path: `leaf_has` needs the hypothesis, the converse
+    direction does not) … -/
+theorem fields_sub_exact (d : Doc) (h : DotFree d) (n : Bytes) :
+    n ∈ d.fields true ↔ (d.has n = true ∧ ∀ sub, d.get n ≠ .obj sub) :=
+  mem_fields_sub_iff d h n
+
+/-- … every present non-map path is listed, for EVERY document … -/
+theorem fields_lists_every_present_leaf (d : Doc) (n : Bytes) (hh : d.has n = true) (hv : ∀ sub, d.get n ≠ .obj sub) :
+    n ∈ d.fields true :=
+  (mem_fields_sub d n).2 (has_leaf' d n hh hv)
+
+/-- … the listing is sorted byte-lexicographically … -/
+theorem fields_sorted (d : Doc) (b : Bool) : (d.fields b).Pairwise (fun x y => bytesLe x y = true) :=
+  CV.fields_sorted d b
+
+/-- … and a field that was `Set` to a non-map value is listed afterwards (any document, any name). -/
+theorem fields_after_set (d : Doc) (n : Bytes) (v : Value) (hv : ∀ sub, v ≠ .obj sub) : n ∈ (d.set n v).fields true :=
+  (mem_fields_sub _ n).2 (leafNames_after_set d n v hv)
+
+/-- dot-free, sorted documents stay so under `Set` of a non-map value -/
+theorem set_keeps_dotfree (d : Doc) (h : DotFree d) (n : Bytes) (v : Value) (hv : ∀ sub, v ≠ .obj sub) : DotFree (d.set n v) :=
+  dotFree_set d h n v hv
+
+example : DotFree [([0x61], .obj [([0x62], .null)]), ([0x63], .bool true)] := by
+  simp [DotFree, DotFreeKeys, SortedKeys, dot, OC.lexLt]
 
 end CV.Props.C18
